@@ -100,7 +100,17 @@ def t3_case(case):
     if np.min(np.abs(lam_o)) < 1e-8:
         return []                      # exact modes divide by the eigenvalue
     fn = tdmd.tdmd_exact if variant == 'exact' else tdmd.tdmd_standard
-    ok, res = c.guarded('post:eigenvalues', lambda: fn(x, y, threshold=thr))
+    # orthonormalisation flags: a sweep may be switched off when the corresponding side is already orthonormal
+    # (TT(ndarray) is left-orthonormal; ortho_right() makes cores 1.. right-orthonormal)
+    flavour = case['k'] % 3
+    kw = {}
+    if flavour == 1:
+        kw = {'ortho_l': False, 'ortho_r': True}              # x from TT(ndarray): already left-orthonormal
+    elif flavour == 2:
+        x = x.ortho_right()
+        sx = spec.Snap(x)
+        kw = {'ortho_l': True, 'ortho_r': False}
+    ok, res = c.guarded('post:eigenvalues', lambda: fn(x, y, threshold=thr, **kw))
     if ok:
         lam, modes = res
         c.add('post:count', len(lam) == len(lam_o), '%d vs %d' % (len(lam), len(lam_o)))
